@@ -429,6 +429,81 @@ theorem import_alias_suffix_witness :
     omitAliasWith .suffixOnly ⟨"lib", "example.com/mylib", "mylib"⟩ = true ∧
     printedLocal (reservedOf ⟨"lib", "example.com/mylib", "mylib"⟩) = "lib" := by decide
 
+-- round 6: the collision check of `Reserve` and the bytes `getSource` slices (over `Gen/ReserveFacts`)
+
+/-- **reserve_collision_is_on_the_alias.** Whatever the package behind the path is called: an import whose path and
+whose NAME IN THE FILE (`userLocal`: the explicit alias, else the package name) are free when its turn comes is
+reserved. Stated over the regenerated `collisionKey`: with `findByAlias(name)` instead of `findByAlias(alias)` in
+`(*Imports).Reserve` (seeded change C19-11) `Lemmas.reserve1_adds`, this theorem and `imports_kept_partial` stop closing. -/
+theorem reserve_collision_is_on_the_alias (acc : List Import) (i : Import)
+    (hp : ∀ j ∈ acc, j.path ≠ i.path) (ha : ∀ j ∈ acc, j.alias ≠ userLocal i) :
+    reservedOf i ∈ reserve1 acc i := reserve1_adds acc i hp ha
+
+/-- **aliased_import_kept_whatever_its_package_name.** A user import with an explicit alias that no template import and
+no other user import is called by (and whose path is not imported otherwise) is written under that alias and survives
+pruning when the code mentions the alias - with NO hypothesis on the package's real name, which may well be `ast`,
+`errors`, `context`, ... or the name of another user import: that is what the alias is for. -/
+theorem aliased_import_kept_whatever_its_package_name (user : List Import)
+    (hnp : (user.map (·.path)).Nodup) (hnn : (user.map userLocal).Nodup)
+    (i : Import) (hi : i ∈ user) (hal : i.alias ≠ "") (hpkg : i.pkg ≠ "")
+    (hfp : ∀ a ∈ ambient, a.path ≠ i.path) (hfn : ∀ a ∈ ambient, a.alias ≠ i.alias)
+    (used : List String) (hu : used.contains i.alias = true ∨ i.alias = "_" ∨ i.alias = ".") :
+    ∃ j ∈ prune used (reserve user), j.path = i.path ∧ printedLocal j = i.alias := by
+  have hl : userLocal i = i.alias := by simp [userLocal, hal]
+  have h := imports_kept_partial user hnp hnn i hi hpkg (Or.inr ⟨hfp, by rw [hl]; exact hfn⟩) used (by rw [hl]; exact hu)
+  rw [hl] at h
+  exact h
+
+/-- the hypotheses are satisfiable with a package name the template has taken (`goast "go/ast"`, `pkgerrors
+"github.com/pkg/errors"`) and with one another user import has (`"crypto/rand"`, `mrand "math/rand"`) -/
+example :
+    let user : List Import := [⟨"", "crypto/rand", "rand"⟩, ⟨"goast", "go/ast", "ast"⟩, ⟨"pkgerrors", "github.com/pkg/errors", "errors"⟩,
+      ⟨"mrand", "math/rand", "rand"⟩]
+    (user.map (·.path)).Nodup ∧ (user.map userLocal).Nodup ∧
+    (∀ i ∈ user, (∀ a ∈ ambient, a.path ≠ i.path) ∧ (∀ a ∈ ambient, a.alias ≠ userLocal i)) ∧
+    (reserve user).map (·.path) = ambient.map (·.path) ++ user.map (·.path) := by decide
+
+/-- What the lookup under the package NAME does (the variant `collisionKey := .name`): `goast "go/ast"` is dropped
+because the template's gqlparser import is called `ast`, `mrand "math/rand"` because `"crypto/rand"` came first - the
+copied bodies then refer to undefined identifiers; un-aliased imports behave as before. -/
+theorem collision_on_package_name_drops_aliased_import_witness :
+    reserve1With .name ambient ⟨"goast", "go/ast", "ast"⟩ = ambient ∧
+    (([⟨"", "crypto/rand", "rand"⟩, ⟨"mrand", "math/rand", "rand"⟩] : List Import).foldl (reserve1With .name) ambient).all
+      (fun j => j.path != "math/rand") = true ∧
+    (([⟨"", "crypto/rand", "rand"⟩, ⟨"mrand", "math/rand", "rand"⟩] : List Import).foldl (reserve1With .alias) ambient).any
+      (fun j => j.path == "math/rand" && j.alias == "mrand") = true := by decide
+
+/-- F19h: `_ "embed"` + `_ "image/png"` — imports that bind no name are reserved as if they all claimed the alias `_`;
+the second one is dropped (likewise two dot imports). -/
+theorem second_blank_import_dropped_witness :
+    ∀ j ∈ reserve [⟨"_", "embed", "embed"⟩, ⟨"_", "image/png", "png"⟩], j.path ≠ "image/png" := by decide
+
+/-- F19i: `"os"` + `xos "os"` (valid Go, both names used) — the path is already reserved, no import binding `xos` is written. -/
+theorem same_path_twice_witness :
+    ∀ j ∈ reserve [⟨"", "os", "os"⟩, ⟨"xos", "os", "os"⟩], ¬ (j.path = "os" ∧ printedLocal j = "xos") := by decide
+
+/-- **getSource_slices_the_parsed_bytes.** The offsets `getSource` is called with are byte offsets go/parser computed on
+the bytes of the file; the text it slices is those very bytes (over the regenerated `cacheForm` of `getFile`). With a
+cache that is a rewritten copy of the file (CRLF normalised, seeded change C19-12) this does not close. -/
+theorem getSource_slices_the_parsed_bytes (bytes : Text) (s e : Nat) :
+    getSourceOf bytes s e = (bytes.drop s).take (e - s) := rfl
+
+/-- What a CRLF-normalised cache does to a file with one CRLF before the body `{x}` (offsets 4..5 = `x`): the slice is
+`}` - every body shifted by the number of lines before it. A file without CR is unaffected (second and third conjunct). -/
+theorem crlf_normalised_cache_shifts_slices_witness :
+    getSourceWith .crlfToLf ['a', '\r', '\n', '{', 'x', '}'] 4 5 = ['}'] ∧
+    getSourceWith .raw ['a', '\r', '\n', '{', 'x', '}'] 4 5 = ['x'] ∧
+    getSourceWith .crlfToLf ['a', '\n', '{', 'x', '}'] 3 4 = getSourceWith .raw ['a', '\n', '{', 'x', '}'] 3 4 := by decide
+
+/-- a file without carriage returns is cached unchanged under either form - why no LF fixture can tell the two apart -/
+theorem normCRLF_without_cr : ∀ (bytes : Text), '\r' ∉ bytes → normCRLF bytes = bytes
+  | [], _ => rfl
+  | [_], _ => rfl
+  | c :: d :: t, h => by
+    have hc : c ≠ '\r' := fun e => h (by simp [e])
+    have ht : '\r' ∉ d :: t := fun m => h (List.mem_cons_of_mem _ m)
+    simp [normCRLF, hc, normCRLF_without_cr (d :: t) ht]
+
 -- ------------------------------------------------------------------ 5. an add-only change keeps everything
 
 /-- **add_only_keeps_everything** (the structural part of "a package that compiled before compiles after").
